@@ -158,9 +158,38 @@ class CallMixin:
         st.assume(z3.ForAll([x], z3.Implies(z3.Select(member.t, x), cmp(z3.Select(val, r.t), z3.Select(val, x))), patterns=[z3.Select(member.t, x)]))
         return r
 
+    def _minmax_gen(self, node, st, is_min):
+        """max(expr(x) for x in S) / min(..): a value r that bounds expr over S and is attained by some element of S.
+        ValueError when S is empty.  Any iteration order gives the same result, so S may be a set."""
+        ge = node.args[0]
+        g = ge.generators[0]
+        vs, guard, binds, dom = self.gen_domain(g, st)
+        with self.binding(binds):
+            with self.guarded(guard):
+                self.qscope.append((vs, guard))
+                try:
+                    body = self.ev(ge.elt, st)
+                finally:
+                    self.qscope.pop()
+        if body.ty not in (T.Int, T.Real):
+            raise Unsupported(f"min/max of a generator of {body.ty}")
+        ws = [z3.Const(fresh_name("w"), v.sort()) for v in vs]
+        sub = list(zip(vs, ws))
+        self.check(st, z3.Exists(vs, guard), "ValueError(min/max of an empty generator)", node)
+        r = fresh(body.ty, "mm")
+        st.assume(z3.Implies(z3.Exists(vs, guard), z3.And(z3.substitute(guard, *sub), r.t == z3.substitute(body.t, *sub))))
+        st.assume(z3.ForAll(vs, z3.Implies(guard, (r.t <= body.t) if is_min else (r.t >= body.t))))
+        return r
+
     def _minmax(self, node, st, is_min):
         if node.keywords:
             return self._minmax_key(node, st, is_min)
+        if len(node.args) == 1 and isinstance(node.args[0], (ast.GeneratorExp, ast.ListComp)) and len(node.args[0].generators) == 1 \
+                and not node.args[0].generators[0].ifs and not self.qscope:
+            try:
+                return self._minmax_gen(node, st, is_min)
+            except Unsupported:
+                pass
         args, seq = self._two_or_seq(node, st)
         if args is not None:
             if any(a.ty == T.Real for a in args):
